@@ -14,14 +14,15 @@ What is proved:
   * WFN/WFX reader + round trip ......................... `wfn_roundtrip`          (full)
   * WFN/WFX as the code stands (scales in source order) . `wfn_dump_source_violated`, `wfn_dump_source_partial`
   * Molden `[GTO]` sorted, rows not ..................... `molden_violated`, `molden_partial`
+  * Molden repaired (rows follow the sort) .............. `molden_sorted_den`       (full)
   * Molekel `$$` separators ............................. `mkl_centers_violated`, `mkl_partial`
   * Molekel beta irreps ................................. `mkl_beta_irreps_violated`, `mkl_beta_irreps_partial`
   * FCHK densities unconverted .......................... `fchk_density_violated`, `fchk_density_partial`
 Which variant the code implements is read from the source on every run (`Iodata/Gen/Wf.lean`) and
 the correspondence runs the model in that variant.
-Not proved here: the Molden/Molekel/FCHK round trips in the repaired variants beyond the sub-domains
-named in the `_partial` theorems (needs invariance of `den` under a stable sort of (shell, block) pairs
-and `bilin (P D Pᵀ) (P x) (P y) = bilin D x y`), and text scanning.
+Not proved here: a repaired Molekel `$$` writer and converted FCHK densities beyond the sub-domains named in
+the `_partial` theorems (`bilin (P D Pᵀ) (P x) (P y) = bilin D x y` for all signed permutations is only shown
+on a witness), the Molden/Molekel/FCHK *readers* (shell lists are read back as written), and text scanning.
 -/
 import Iodata.Lemmas.Wf
 import Iodata.Gen.Conventions
@@ -159,6 +160,20 @@ theorem molden_violated :
       ≠ den (fun _ => sconv) [sOn 1, sOn 0] [1, 2] (0, 0, 0, 'c', ['1']) := by
   decide
 
+/-- 5c. The repaired Molden writer (`moldenDumpSorted`: the coefficient blocks follow the shells sorted by
+centre) — full statement: for every shell order, conventions and contraction the file lists the shells
+sorted by centre and denotes the same orbitals. -/
+theorem molden_sorted_den (cv1 cvM : Cv) (shells : List Shell)
+    (hc : ∀ s ∈ shells, Compatible (cv1 s.key) (cvM s.key)) (coeffs : List Int) (κ : PKey) :
+    (moldenDumpSorted cv1 cvM shells coeffs).1 = sortByCenter shells ∧
+    den cvM (moldenDumpSorted cv1 cvM shells coeffs).1 (moldenDumpSorted cv1 cvM shells coeffs).2 κ
+      = den cv1 shells coeffs κ := by
+  constructor
+  · simp only [moldenDumpSorted, map_fst_sortPairs, map_fst_blocks]
+  · simp only [moldenDumpSorted]
+    rw [den_of_pairs cvM _ (good_sort cvM _ (good_blocks_convert cv1 cvM shells coeffs)), denPairs_sort,
+      ← den_eq_denPairs, den_convert cv1 cvM shells hc]
+
 /-! #### Molekel -/
 
 /-- centres visited in ascending order without skipping one (the first may be 0 or 1) -/
@@ -193,6 +208,14 @@ theorem mkl_partial (cv1 cvM : Cv) (shells : List Shell)
     den cvM (mklDump cv1 cvM shells coeffs).1 (mklDump cv1 cvM shells coeffs).2 κ = den cv1 shells coeffs κ := by
   simp only [mklDump, mklCenters, mklCentersFrom_contig _ 0 hcontig, recenter_self]
   exact den_convert cv1 cvM shells hc coeffs κ
+
+/-- 6a'. A repaired Molekel writer that lists the shells sorted by centre with one `$$` per centre passed (so the
+reader's count equals the centre index) and lets the rows follow is the sorted Molden layout: full statement. -/
+theorem mkl_sorted_den (cv1 cvM : Cv) (shells : List Shell)
+    (hc : ∀ s ∈ shells, Compatible (cv1 s.key) (cvM s.key)) (coeffs : List Int) (κ : PKey) :
+    den cvM (moldenDumpSorted cv1 cvM shells coeffs).1 (moldenDumpSorted cv1 cvM shells coeffs).2 κ
+      = den cv1 shells coeffs κ :=
+  (molden_sorted_den cv1 cvM shells hc coeffs κ).2
 
 /-- 6b. `_violated`: a skipped centre and an unsorted centre list come back wrong. -/
 theorem mkl_centers_violated : mklCenters [0, 2] = [0, 1] ∧ mklCenters [1, 0] = [1, 2] ∧ mklCenters [2] = [1] := by
